@@ -31,6 +31,11 @@ pub fn plan05(tier: Tier) -> Plan {
             }
         }
     }
+    // the tie-heavy alphabet scaled by 2^1021 (observations up to 6.7e307): P² evaluated
+    // without overflow is the reference (see known_findings.txt)
+    for p in [0.1, 0.25, 0.5, 0.75, 0.9] {
+        checks.push(super::quantile::qcheck_scaled(Mode::C05, p, "qties", if tier == Tier::Quick { 9 } else { 11 }, 0.0, (2.0f64).powi(1021)));
+    }
     let (mw, n) = if tier == Tier::Quick { (3, 1000) } else { (4, 10_000) };
     for p in pgrid() {
         checks.push(Box::new(QLasso { mode: Mode::C05, p, max_word: mw, n }));
@@ -41,7 +46,7 @@ pub fn plan05(tier: Tier) -> Plan {
     let mut a = common_assumptions();
     a.push("the reference is the P² algorithm as printed in Jain & Chlamtac 1985 (refmodels/p2.rs), in the paper's expression order".into());
     Plan {
-        rule: "long streams as a finite family: every word of length <= 3 (4) over {0,1,2,3} repeated to n = 300 (10^4) with linear trend c·t, c in {0, +0.5, -0.5} (sorted, reverse-sorted, zig-zag, saw-tooth, heavy-duplicate and trending streams), every step compared with the reference; AND for every p of the grid, every stream over the tie-heavy alphabet {0,1,2,3} and the distinct alphabet {-4,0,1,2.5,3,7} up to the depth bound; after each observation from the fifth the real quantile() and the serde-visible marker heights/positions are compared with the from-the-paper reference run on the same stream; states are (real marker state, reference state, ghost min/max) and non-trivial from the fifth observation on".into(),
+        rule: "long streams as a finite family: every word of length <= 3 (4) over {0,1,2,3} repeated to n = 300 (10^4) with linear trend c·t, c in {0, +0.5, -0.5} (sorted, reverse-sorted, zig-zag, saw-tooth, heavy-duplicate and trending streams), every step compared with the reference; AND for every p of the grid, every stream over the tie-heavy alphabet {0,1,2,3} and the distinct alphabet {-4,0,1,2.5,3,7} up to the depth bound; after each observation from the fifth the real quantile() and the serde-visible marker heights/positions are compared with the from-the-paper reference run on the same stream; states are (real marker state, reference state, ghost min/max) and non-trivial from the fifth observation on; AND the power-of-two scale family: the real estimator is fed letter·2^1021 over {0,1,2,3}, the reference the letter, reference heights multiplied by 2^1021 (P² evaluated without overflow; see known_findings.txt)".into(),
         assumptions: a,
         checks,
     }
@@ -86,12 +91,13 @@ pub fn plan07(tier: Tier) -> Plan {
     }
     for p in [0., 0.25, 1. / 3., 0.5, 0.75, 1.] {
         checks.push(qcheck(Mode::C07, p, "q07huge", 4, 0.0));
+        checks.push(qcheck(Mode::C07, p, "qden", 4, 0.0));
     }
     for p in [0., 0.5, 1. / 3.] {
         checks.push(cross(super::quantile::QSpec::new(Mode::C07, p, "q07"), 4));
     }
     Plan {
-        rule: "p over {0,1} U {k/n, k/n ± 1ulp : 1<=k<=n<=4} U pgrid; every sequence of length 1..4 over {-1,0,0.5,2,7} (every permutation of every multiset, duplicates included); quantile() after every add is compared with the exact sample quantile (n·p evaluated in integer arithmetic); non-trivial states hold 1..4 observations".into(),
+        rule: "p over {0,1} U {k/n, k/n ± 1ulp : 1<=k<=n<=4} U pgrid; every sequence of length 1..4 over {-1,0,0.5,2,7} (every permutation of every multiset, duplicates included), and for six p over the near-overflow alphabet q07huge and the subnormal alphabet qden; quantile() after every add is compared with the exact sample quantile (n·p evaluated in integer arithmetic; an order statistic exactly, an average within two roundings and inside [a, b]); non-trivial states hold 1..4 observations".into(),
         assumptions: common_assumptions(),
         checks,
     }
@@ -117,6 +123,10 @@ pub fn plan15(tier: Tier) -> Plan {
     for p in [0.25, 0.5] {
         checks.push(qcheck(Mode::C15, p, "qhuge", if tier == Tier::Quick { 8 } else { 10 }, 0.0));
     }
+    // subnormal observations
+    for p in [0., 0.25, 1. / 3., 0.5, 0.75, 1.] {
+        checks.push(qcheck(Mode::C15, p, "qden", if tier == Tier::Quick { 7 } else { 9 }, 0.0));
+    }
     for p in [0., 0.5, 1.] {
         checks.push(qcheck(Mode::C15, p, "const1", if tier == Tier::Quick { 40 } else { 400 }, 0.0));
     }
@@ -135,7 +145,7 @@ pub fn plan15(tier: Tier) -> Plan {
         checks.push(cross(super::quantile::QSpec::new(Mode::C15, p, "qties"), if tier == Tier::Quick { 7 } else { 9 }));
     }
     Plan {
-        rule: "the C05 stream families (bounded exhaustive and long lasso/trend streams) from the first observation on; invariants on every state: len/is_empty/p() read-back, quantile() NaN iff empty and otherwise within the ghost [min,max], from five observations on serialised heights non-decreasing with first = min and last = max; plus the constructor grid (panic iff p outside [0,1] or NaN)".into(),
+        rule: "the C05 stream families (bounded exhaustive and long lasso/trend streams) from the first observation on; invariants on every state: len/is_empty/p() read-back, quantile() NaN iff empty and otherwise within the ghost [min,max], from five observations on serialised heights non-decreasing with first = min and last = max; plus the alphabets qhuge (span overflows f64; known finding) and qden (subnormal observations), plus the constructor grid (panic iff p outside [0,1] or NaN)".into(),
         assumptions: common_assumptions(),
         checks,
     }
